@@ -29,6 +29,7 @@ import OFV.Proofs.C08Dch
 import OFV.Proofs.C08Qh
 import OFV.Proofs.C08DchIg
 import OFV.Proofs.C08QhIg
+import OFV.Proofs.C08QhDoc
 import OFV.Proofs.C08Doci
 import OFV.Spec.Expr
 
@@ -447,6 +448,24 @@ example : (match getQuadraticHamiltonian Generated.eqTolerance
       | .ok _ => true
       | .error _ => false) = false := by
   decide +kernel
+
+/-- **`quadratic_hamiltonian_docstring`** (the constructor, all inputs): for `n × n` arrays
+`hermitian_part = M` and `antisymmetric_part = Δ`, any constant and chemical potential, the
+PolynomialTensor `QuadraticHamiltonian.__init__` builds —
+`{(): constant, (1,0): M − μ·1, (1,1): Δ/2, (0,0): −Δ*/2}` — has the matrix elements of the operator of
+the class docstring, `Σ (M_pq − μ δ_pq) a†_p a_q + ½ Σ (Δ_pq a†_p a†_q + Δ*_pq a_q a_p) + constant`
+(`Spec.C08.denoteQH`): the `(0,0)` tensor stores `−Δ*/2` because `a_q a_p = −a_p a_q`. -/
+theorem quadratic_hamiltonian_docstring (n : Nat) (herm Δ : Tensor) (c mu : GQ) (hH : Shaped n 2 herm)
+    (hΔ : Shaped n 2 Δ) (t s : Nat) :
+    melF (denotePT (mkQH n herm (some Δ) c mu).d) t s = melF (denoteQH n herm Δ mu c) t s := by
+  rw [melF_eq_evalW, melF_eq_evalW]
+  exact mkQH_docstring n herm Δ c mu hH hΔ (fun τ => termMel τ t s)
+    (fun p q => termMel_pair_antisym t s 0 (by omega) p q)
+
+/-- non-vacuity: 2 × 2 arrays have the shape the theorem asks for -/
+example : Shaped 2 2 (tzeros 2 2) ∧ Shaped 2 2 (Tensor.v [.v [.s 0, .s 1], .v [.s (-1), .s 0]]) := by
+  refine ⟨Shaped_tzeros 2 2, ?_⟩
+  simp [Shaped]
 
 /-! ### DOCIHamiltonian -/
 
